@@ -25,5 +25,5 @@ NextC == \E l \in Labels : NextL(l) /\ path' = Append(path, <<l.a, l.o, l.x, l.y
 SpecC == InitC /\ [][NextC]_<<vars, path>>
 Flags == [eo |-> StepExactlyOnce, bu |-> StepBudget, nk |-> StepNewestKept, no |-> StepNoOverwrite]
 Emit  == PrintT(ToString(<<path', Obs', Flags>>))     \* Flags: the truth of the C13 step formulas on this transition
-MaxDepth == TLCGet("level") < 40
+MonoNames == ev'.newts # 0 => ev'.newts > maxused   \* ACTION_CONSTRAINT: only roll-overs to strictly newer names
 =============================================================================
